@@ -58,6 +58,22 @@ Theorem resolve_order_independent : forall d d' fuel n,
 Proof. intros d d' fuel n HP ND. apply loadv_ext. now apply lookup_perm. Qed.
 Print Assumptions resolve_order_independent.
 
+(* A Loader that serves a sequence of requests answers each of them as a fresh
+   Loader would: whatever it has cached (as long as the cache holds only what the
+   directory holds - in particular never an entry for a missing description),
+   the answers are a function of the directory and the requested name alone. *)
+Theorem load_is_history_independent : forall fuel d upd cache ops,
+  (forall c n, consistent c d -> consistent (upd c n) d) -> consistent cache d ->
+  run_ops fuel d upd cache ops = map (resolve true fuel d) ops.
+Proof. intros fuel d upd cache ops Hupd Hc. exact (run_ops_pure fuel d upd Hupd ops cache Hc). Qed.
+Print Assumptions load_is_history_independent.
+
+Example history_independent_instance : forall fuel d ops,
+  run_ops fuel d (cache_requested d) [] ops = map (resolve true fuel d) ops.
+Proof.
+  intros. apply load_is_history_independent; [apply cache_requested_consistent | intros n r H; discriminate].
+Qed.
+
 (* a successful resolution implies an acyclic, complete inheritance below n *)
 Theorem ok_only_if_acyclic_and_complete : forall d fuel n n' c,
   resolve true fuel d n = Ok n' c -> n' = n /\ (exists l, Lin d n l) /\ ~ Anc d n n.
